@@ -268,6 +268,7 @@ fn real_main() {
             println!("case {}: {}", i, check.describe(i));
             let r = check.run(i);
             println!("class: {}", r.class);
+            println!("counters: {:?}", r.counters);
             for viol in &r.violations {
                 println!("VIOLATION property={} fingerprint={}\n{}", check.property(), viol.fingerprint, viol.detail);
             }
